@@ -893,7 +893,45 @@ fn c06_spec(s: &Spec) -> C06Spec {
     }
 }
 
+/// the very long malformed region: ignore = the clean run, silently and successfully; panic = the parse error after exactly the
+/// rows of the values in front of the region
+fn c06_huge(g: &Group, obs: &[Obs]) -> Option<String> {
+    if g.cases.len() != 3 || obs.len() != 3 {
+        return None;
+    }
+    let (noisy, clean, panic) = (&obs[0], &obs[1], &obs[2]);
+    if clean.res != "ok" {
+        return Some(format!("{}: the clean stream ended with {}", g.cases[1].id, clean.res));
+    }
+    if noisy.res != "ok" {
+        return Some(format!("{}: --on-error=ignore ended with {} on a long malformed region", g.cases[0].id, noisy.res));
+    }
+    if noisy.out != clean.out {
+        return Some(format!("{}: a long malformed region changed the rows under --on-error=ignore", g.cases[0].id));
+    }
+    if !noisy.err.is_empty() {
+        return Some(format!("{}: --on-error=ignore wrote to stderr", g.cases[0].id));
+    }
+    let before = tag_num(&g.tag, "before")?;
+    if !panic.res.starts_with("err:json") {
+        return Some(format!("{}: --on-error=panic ended with {} instead of the parse error", g.cases[2].id, panic.res));
+    }
+    let cl = lines(&clean.out);
+    let mut want: Vec<u8> = vec![];
+    for l in cl.iter().take(before) {
+        want.extend_from_slice(l);
+        want.push(b'\n');
+    }
+    if panic.out != want {
+        return Some(format!("{}: --on-error=panic printed {} rows, expected exactly the {before} rows in front of the malformed region", g.cases[2].id, lines(&panic.out).len()));
+    }
+    None
+}
+
 fn c06(g: &Group, obs: &[Obs]) -> Option<String> {
+    if g.tag.starts_with("huge-gap") {
+        return c06_huge(g, obs);
+    }
     if g.cases.len() != 8 || obs.len() != 8 {
         return None;
     }
